@@ -131,7 +131,7 @@ FIELD_VALUES = [
 ]
 # values that compare (and hash) equal across types but have different JSON encodings
 NUMERIC_VALUES = [("1", 1), ("1.0", 1.0), ("true", True), ("0", 0), ("0.0", 0.0), ("-0.0", -0.0), ("false", False), ("text-1", "1")]
-FIELD_NAMES = ["k", "zeta", "Alpha", "reason", "exception", "task", "action"]
+FIELD_NAMES = ["k", "zeta", "Alpha", "reason", "exception", "task", "action", "used%", "rate%s", "100%%", "{0}"]
 TIMESTAMPS = [0.0, 1425356800.5, 1425356800.000001, 1.0e9 + 0.999999, 86399.25]
 
 
@@ -360,7 +360,7 @@ OBLIGATIONS = [
         shards=lambda tier: [dict(b, prefix=p) for b in ([{"max_fields": 1}, {"max_fields": 2, "levels": 1, "stamps": 1, "numeric": 1}] if tier == "quick" else [{"max_fields": 1}, {"max_fields": 2, "levels": 2, "stamps": 2}, {"max_fields": 2, "levels": 2, "stamps": 2, "numeric": 1}]) for p in enumerate_prefixes(body_E1, "X", {}, b, 2 if tier == "quick" else 3)],
         twin=[{"max_fields": 1, "twin_label": "action-with-field"}],
         timeout={"quick": 100, "thorough": 900},
-        bounds={"quick": "3 task levels x 5 timestamps x {message, action x 3 statuses, no type field, empty action_type, empty message_type} x <= 1 extra field (7 names x 10 corner values; short text values are read back exactly from the rendering); <= 2 fields over values that are equal across types but encode differently (1, 1.0, true, 0, 0.0, -0.0, false, \"1\")", "thorough": "additionally <= 2 extra fields with 2 levels x 2 timestamps"},
+        bounds={"quick": "3 task levels x 5 timestamps x {message, action x 3 statuses, no type field, empty action_type, empty message_type} x <= 1 extra field (11 names, incl. names containing % and {} format directives, x 10 corner values; short text values are read back exactly from the rendering); <= 2 fields over values that are equal across types but encode differently (1, 1.0, true, 0, 0.0, -0.0, false, \"1\")", "thorough": "additionally <= 2 extra fields with 2 levels x 2 timestamps"},
     ),
     Ob(
         "E2",
